@@ -98,9 +98,9 @@ Record InvV (reg0 : option index) (s : state) : Prop := {
       reg s = Some x \/ In x (junk s) \/ exists t a, pcs s t = NeedDel x a
 }.
 
-Lemma invV_init r0 st0 : (forall x, In x st0 -> r0 = Some x) -> InvV r0 (init r0 st0).
+Lemma invV_init r0 st0 : InvV r0 (init r0 st0).
 Proof.
-  intro Hst. constructor; simpl; intros; try discriminate; try tauto; try (now constructor); auto.
+  constructor; simpl; intros; try discriminate; try tauto; try (now constructor); auto.
   destruct H; discriminate.
 Qed.
 
@@ -525,8 +525,7 @@ Proof.
 Qed.
 
 Lemma reachable_inv sg r0 st0 tr s :
-  (forall x, In x st0 -> r0 = Some x) ->
   run sg (init r0 st0) tr = Some s -> InvS s /\ InvV r0 s.
 Proof.
-  intros Hst H. eapply run_inv; eauto using invS_init, invV_init.
+  intros H. eapply run_inv; eauto using invS_init, invV_init.
 Qed.
